@@ -436,20 +436,27 @@ Definition h4 : list jev := [JB (HRecv 6000 (lastAB N3))].
 Definition N4 := xjrun env_x N3 h4.
 Definition hh : list jev := h1 ++ h2 ++ h3 ++ h4.
 
+(* computations stay on the goal side (vm casts); big unevaluated terms are never handed to
+   discriminate / injection (which would reduce them lazily) *)
+Ltac eval_in t H := let v := eval vm_compute in t in let E := fresh "E" in
+  assert (E : t = v) by (vm_compute; reflexivity); rewrite E in H; clear E.
 Ltac dy_goal :=
   match goal with
   | |- True => exact I
   | |- forall d m, hev_dgram ?x = Some d -> _ =>
       let d := fresh "d" in let m := fresh "m" in let Hd := fresh "Hd" in let Hm := fresh "Hm" in
       intros d m Hd Hm; cbn [hev_dgram] in Hd;
-      first [ discriminate Hd
-            | (let ko := fresh "ko" in let ms := fresh "ms" in let w := fresh "w" in
-               let OD := fresh "OD" in let Iw := fresh "Iw" in
-               destruct Hm as (ko & ms & w & OD & Iw & <-);
-               match type of Hd with Some ?D = Some _ => assert (d = D) as -> by congruence end;
-               destruct ko as [k|]; vm_compute in OD; [discriminate OD|];
-               injection OD as <-; destruct Iw as [<-|[]];
-               vm_compute; intros sk _; right; exists 5; auto 10) ]
+      lazymatch type of Hd with
+      | None = Some _ => discriminate Hd
+      | Some ?D = Some _ =>
+          let ko := fresh "ko" in let ms := fresh "ms" in let w := fresh "w" in
+          let OD := fresh "OD" in let Iw := fresh "Iw" in
+          destruct Hm as (ko & ms & w & OD & Iw & <-);
+          assert (d = D) as -> by congruence; clear Hd; eval_in D OD;
+          destruct ko as [k|]; cbn in OD; [discriminate OD|];
+          injection OD as <-; destruct Iw as [<-|[]];
+          vm_compute; intros sk _; right; exists 5; auto 10
+      end
   end.
 Ltac sealed_goal :=
   match goal with
@@ -457,10 +464,14 @@ Ltac sealed_goal :=
   | |- forall d ms, hev_dgram ?x = Some d -> _ =>
       let d := fresh "d" in let ms := fresh "ms" in let Hd := fresh "Hd" in let K := fresh "K" in let OD := fresh "OD" in
       intros d ms Hd K OD; cbn [hev_dgram] in Hd;
-      first [ discriminate Hd
-            | (exfalso; apply K; vm_compute; reflexivity)
-            | (match type of Hd with Some ?D = Some _ => assert (d = D) as -> by congruence end;
-               first [ vm_compute in OD; discriminate OD | vm_compute; auto 10 ]) ]
+      lazymatch type of Hd with
+      | None = Some _ => discriminate Hd
+      | Some ?D = Some _ =>
+          first [ (exfalso; apply K; vm_compute; reflexivity)
+                | (assert (d = D) as -> by congruence; clear Hd;
+                   first [ vm_compute; auto 10
+                         | match type of OD with ?t = _ => eval_in t OD end; discriminate OD ]) ]
+      end
   end.
 
 (* the honest complete handshake: every hypothesis of R1-R3 holds, both ends CONNECTED with the same key
@@ -519,7 +530,7 @@ Proof.
   repeat match goal with |- _ /\ _ => split end; try (vm_compute; reflexivity).
   - vm_compute. intros H. discriminate H.
   - intros dA kA sA rp pl sg _ _ d k0 en Hin.
-    assert (E : map (fun j => snd (fst j)) (gB R4) = [None]) by (vm_compute; reflexivity).
-    assert (X : In k0 (map (fun j => snd (fst j)) (gB R4))) by (apply in_map_iff; exists (d, k0, en); auto).
-    rewrite E in X. destruct X as [<-|[]]. discriminate.
+    pose (f := fun j : jentry tsig => snd (fst j)).
+    assert (E : map f (gB R4) = [None]) by (vm_compute; reflexivity).
+    pose proof (in_map f _ _ Hin) as X. rewrite E in X. destruct X as [X|[]]. subst f. cbn in X. subst k0. discriminate.
 Qed.
